@@ -76,3 +76,28 @@ def arg_of(ctx, call: ast.Call, name: str, module, cls=None):
 def unold_ast(node):
     """like unold, returning the expression"""
     return ast.parse(unold(node), mode="eval").body
+
+
+def raised_privately(fn) -> set[str]:
+    """names of the exception classes a helper raises directly (`raise E` / `raise E(..)`): a helper may say "no answer" by returning
+    None or by raising a private exception; callers then test `is None` or catch it"""
+    out = set()
+    for n in ast.walk(fn):
+        if isinstance(n, ast.Raise) and n.exc is not None:
+            e = n.exc.func if isinstance(n.exc, ast.Call) else n.exc
+            out.add(u(e).split(".")[-1])
+    return out
+
+
+def answered(p, call_text: str, excs: set[str]):
+    """did the helper call answer on this path?  True: `<call> is not None` taken, or the call was made and none of its private
+    exceptions was caught;  False: `<call> is not None` refused, or one of them was caught;  None: the path does not say"""
+    for t, k in p.tests:
+        if u(t) == f"{call_text} is not None":
+            return k
+    caught = [u(t.args[0]).split(".")[-1] for t, k in p.tests if k and isinstance(t, ast.Call) and u(t.func) == "except_" and t.args]
+    if any(c in excs for c in caught):
+        return False
+    if excs and any(call_text in u(x) for x in list(p.effects) + [t for t, _ in p.tests] + ([p.value] if p.value is not None else [])):
+        return True
+    return None
